@@ -953,13 +953,15 @@ pub fn check_c14(prog: &NetProgram, res: &NetResult, info: &mut RunInfo) {
         let goes_down: Vec<bool> = (0..nmod).map(|m| tr.iter().any(|r| r.m as usize == m && matches!(r.ev, Ev::ShutdownReq { .. } | Ev::PanicNow))).collect();
         let max_stack = (0..nmod).map(|m| stack_of(prog, m).len()).max().unwrap_or(0) as u32;
         let first_end = tr.iter().find(|r| matches!(r.ev, Ev::End { .. })).map_or(u32::MAX, |r| r.seq.saturating_sub(2 * max_stack + 2));
-        // a sender is down from the event in which it asked for its shutdown until the start-up callback of its restart
+        // a sender is down from the end of the event in which it asked for its shutdown until the start-up callback of its restart
         // (the elements' event_start hooks of that restart event run before it), and for good after a panic
         let mut down = vec![false; nmod];
         let mut dead = vec![false; nmod];
         for r in tr {
             match &r.ev {
-                Ev::ShutdownReq { .. } => down[r.m as usize] = true,
+                // (the shutdown takes effect at the end of the requesting event - the recorded reset; what the module
+                // still emits in that event after the request is emitted)
+                Ev::Reset { .. } => down[r.m as usize] = true,
                 Ev::PanicNow => dead[r.m as usize] = true,
                 Ev::Start { .. } => down[r.m as usize] = false,
                 _ => {}
